@@ -439,7 +439,13 @@ fn files_for_invocation(invocation: &ToolInvocation) -> Result<Option<Vec<PathBu
         "write" => {
             let args: WriteArgs = serde_json::from_value(invocation.args.clone())
                 .map_err(|err| format!("checkpoint args invalid: {err}"))?;
-            Ok(Some(vec![PathBuf::from(args.path)]))
+            let path = PathBuf::from(args.path);
+            // The write tool refuses absolute paths; a refused request must not leave a
+            // checkpoint behind either.
+            if path.is_absolute() {
+                return Ok(None);
+            }
+            Ok(Some(vec![path]))
         }
         "apply_patch" => {
             let args: ApplyPatchArgs = serde_json::from_value(invocation.args.clone())
